@@ -220,7 +220,8 @@ prop("C13", level="exploration", bounded=True,
           "seeded random nests of depth 3-4 with float entries and all-default blocks: content == non-default entries, shape == dimensions, no stored "
           "default, uncompress(shape) == the nest; YAML dump + load (real files) and fiber2dict/dict2fiber for depth-2 trees with explicit defaults and "
           "empty sub-fibers, float nests, rank-0 tensors, split/swizzled/flattened tensors (rank ids, shape, name, equality); fromRandom over seeds: "
-          "reproducible, inside the shape, full at density 1. No deductive part: _makeFiber/uncompress/dict2fiber recurse over heterogeneous nested "
+          "reproducible, inside the shape, full at density 1. Deductive part (minimal): the dictionary form of a leaf payload is its bare value "
+          "(Payload.payload2dict); _makeFiber/uncompress/dict2fiber recurse over heterogeneous nested "
           "lists and dictionaries, YAML and random are external; the union loop that uncompress relies on is proved under C04.",
      note="Exploration level. Known finding: tuple-coordinate tensors do not reload (safe_load rejects python/tuple).",
      trusted_base=["yaml, random (external)"])
